@@ -72,7 +72,9 @@ def cases(draw):
     patches = [[draw(st.integers(0, ny - 1)), draw(st.integers(0, nx - 1)), draw(cell)] for _ in range(npatch)]
     p = {
         "method": method, "ny": ny, "nx": nx, "tile": tile, "patches": patches,
-        "invalid_value": draw(st.sampled_from(["NaN", -9999])),
+        # what invalid pixels hold: NaN, the usual sentinel, or a finite value close to the valid disparities (any
+        # invalid_disparity may be configured): it must never enter a median or a weighted mean
+        "invalid_value": draw(st.sampled_from(["NaN", -9999, -9999, 0, 3.5, -2.25])),
         "flagseed": draw(st.integers(0, 1000)),
     }
     if method == "bilateral":
